@@ -29,10 +29,10 @@ func init() {
 	})
 	register(&Property{
 		ID:        "C02",
-		Technique: "guard dominance on per-function CFGs (purity and commutativity flags dominate every Generate-time execution), conjunct-closure check of purity propagation, who-may-call check of the recovering optimizer entry, flag/implementation witness tables, sibling agreement of generator and optimizer dispatch",
+		Technique: "guard dominance on per-function CFGs (purity and commutativity flags dominate every Generate-time execution), conjunct-closure check of purity propagation, who-may-call check of the recovering optimizer entry, flag/implementation witness tables, sibling agreement of generator and optimizer dispatch, subtree promotions checked against the child roles read from the generated code",
 		Explanation: "Decides that the optimizer executes operator/function implementations at Generate time only under the IsPure flag of the very descriptor it executes, regroups only under IsCommutative/same-operator, " +
 			"that the generator's purity result conjoins the purity of every sub expression and statically bound callee, that declared flags have no asymmetry/impurity witness in the implementation, that optimizer code is reachable only through the recovering wrapper, " +
-			"and that optimizer and generator consult the same handlers per AST node kind. Not decided: equality of folded and run-time values, execution counts, purity of host functions and methods.",
+			"that optimizer and generator consult the same handlers per AST node kind, and that the optimizer replaces a node by one of its children only under the condition under which the generated code returns that child's value. Not decided: equality of folded and run-time values, execution counts, purity of host functions and methods.",
 		Assumptions: []string{"unary operators and the list/map/closure handlers are pure (they carry no purity flag)", "host-declared IsPure/IsCommutative flags of host operators are truthful"},
 		Rules: []*Rule{
 			{ID: "R02.1", Title: "purity-guarded folding: Impl.Calc / Function.Func run at Generate time only under the same descriptor's IsPure", Floor: 6, Run: ruleR021},
@@ -127,7 +127,7 @@ func init() {
 		ID:        "C07",
 		Technique: "flow-sensitive error-drop analysis on per-function CFGs (every error definition reaches a test/return/hand-over before overwrite or exit), dead-store check for value receivers, arity-vs-stack-slot check of every method/function declaration (interprocedural constant binding, two levels), sibling agreement of map storages (R13.1), aliasing discipline of list backing slices (R09.1)",
 		Explanation: "Decides, for the clause 'misuse yields an error' and for the mechanisms the built-ins share: no error produced inside a built-in is dropped on any path; a method that records an error in its receiver can be observed by its caller; " +
-			"no method or function reads a stack slot beyond its declared arity; the map storages agree on their key domain and list backing slices are not aliased by their providers (R13.1, R09.1). Not decided: the mathematical result of each of the ~120 built-ins.",
+			"no method or function reads a stack slot beyond its declared arity; the map storages agree on their key domain and list backing slices are not aliased by their providers (R13.1, R09.1); string cutting keeps one unit (runes or bytes) per quantity; text to number conversions read the same number syntax as the language's own number parser. Not decided: the mathematical result of each of the ~120 built-ins.",
 		Rules: []*Rule{
 			{ID: "R07.1", Title: "no error is dropped in the built-ins (tested, returned or handed on, on every path)", Floor: 600, Run: ruleR071},
 			{ID: "R07.2", Title: "stores into fields of a value receiver are not lost (error sinks are shared)", Floor: 0, Run: ruleR072},
@@ -142,9 +142,9 @@ func init() {
 	})
 	register(&Property{
 		ID:        "C08",
-		Technique: "construction-site purity check of lazy stages (no consuming method, no closure call outside the producer; consuming methods derived from the source), early-exit check of short-circuit consumers on CFG guards, stop-propagation check of every producer literal (repository and iterator dependency), per-iteration state check of stage producers",
+		Technique: "construction-site purity check of lazy stages (no consuming method, no closure call outside the producer; consuming methods derived from the source), early-exit check of short-circuit consumers on CFG guards, stop-propagation check of every producer literal (repository and iterator dependency), per-iteration state check of stage producers, read-ahead discipline of producer loops (element independent exit before error forwarding, no latched element errors)",
 		Explanation: "Decides the structural side of laziness: building a lazy stage iterates nothing and calls no closure; first/single/present/indexWhere/~ leave their loop over the producer as soon as the result is decided; every producer (in the repository and in the iterator dependency) returns when the consumer answers false, or ignores the answer only for its last element; " +
-			"stage producers keep all state they modify per iteration. Not decided: demand counts, the read-ahead width, errors behind the decisive element in parallel mode.",
+			"stage producers keep all state they modify per iteration; a loop over a producer that can drop the element it has just pulled on an element independent exit tests that exit before it forwards the element's error, and no element error is stored beyond the loop while the loop goes on. Not decided: demand counts, the read-ahead width, errors behind the decisive element in other shapes or in parallel mode.",
 		Rules: []*Rule{
 			{ID: "R08.1", Title: "stage constructors do not consume: no list iteration and no closure call outside the returned producer", Floor: 21, Run: ruleR081},
 			{ID: "R08.2", Title: "short circuit consumers return inside the loop over the producer", Floor: 5, Run: ruleR082},
